@@ -69,12 +69,26 @@ def layout(x, kind):
     return x
 
 
-def wrap_units(shared, kind="float"):
+# unit plans: which unit each role carries.  "Attaching units never changes which computation is carried out" is claimed for every
+# unit, so besides plain SI units each data set is also run with angles (where handlers like to be helpful), an offset scale, a
+# logarithmic unit.  (Ratios of commensurable units such as km/m are not used: the library reduces them to a number times the
+# dimensionless unit, which is re-expression - C07's subject - not another computation.)  A refusal is always allowed; numbers
+# that differ are not.
+PLANS = {
+    "si": {"A": "m", "A2": "m", "B": "s", "G": "rad", "I": "1/m"},
+    "angle": {"A": "degree", "A2": "degree", "B": "s", "G": "degree", "I": "1/degree"},
+    "offset": {"A": "degC", "A2": "degC", "B": "s", "G": "arcsec", "I": "1/K"},
+    "log": {"A": "dB", "A2": "dB", "B": "s", "G": "mrad", "I": "1/m"},
+}
+PLAN_NAMES = tuple(PLANS)
+
+
+def wrap_units(shared, kind="float", plan="si"):
     from unyt import unyt_array, unyt_quantity
 
     def w(x, role):
         x = layout(x, kind)
-        u = {"A": "m", "A2": "m", "B": "m" if shared else "s", "G": "rad", "I": "1/m"}[role]
+        u = PLANS[plan][role] if not (role == "B" and shared) else PLANS[plan]["A"]
         if x.shape == ():
             return unyt_quantity(x, u)
         return unyt_array(x, u)
@@ -107,7 +121,7 @@ def ulp_close(a, b, n=8):
 
 def compare(ref, got, fn, ex, out, part, dkind):
     lr, lg = C.flatten(ref), C.flatten(got)
-    key = f"{fn}"
+    key = f"{fn}:{ex.replace(' ', '')[:80]}"
     if len(lr) != len(lg):
         out.append((f"C06:structure:{key}", {"expr": ex, "ref_leaves": len(lr), "got_leaves": len(lg), "dtype": dkind}))
         return
@@ -135,11 +149,13 @@ def compare(ref, got, fn, ex, out, part, dkind):
         return
 
 
-def judge_data(vals, part, templates=None):
+def judge_data(vals, part, templates=None, plan=None):
     out = []
     base = C.make_data(lambda n: list(vals)[:n])
     base2 = C.make_data(lambda n: list(reversed(list(vals)))[:n])
     extra = EXTRA_KINDS[int(round(abs(list(vals)[0]) * 8)) % len(EXTRA_KINDS)]
+    plan = plan or PLAN_NAMES[int(round(abs(list(vals)[1]) * 8)) % len(PLAN_NAMES)]
+    part.count(f"data sets under unit plan {plan}")
     for dkind in ("float", "int", "complex", extra):
         data = variant(base, dkind)
         data2 = variant(base2, dkind)
@@ -155,7 +171,7 @@ def judge_data(vals, part, templates=None):
                 part.count(f"bare call raises ({dkind})")
                 continue
             try:
-                got = C.evaluate(ex, data, wrap_units("B" in fl, dkind))
+                got = C.evaluate(ex, data, wrap_units("B" in fl, dkind, plan))
             except Exception as e:
                 part.count("unyt call raises (allowed)")
                 part.count(f"raises:{fn}:{type(e).__name__}")
@@ -170,7 +186,10 @@ def judge_data(vals, part, templates=None):
                 dep = False
             if dep:
                 part.nt((fn, ex, dkind))
+            n0 = len(out)
             compare(ref, got, fn, ex, out, part, dkind)
+            if plan != "si":
+                out[n0:] = [(k_ + "~units=" + plan, dict(d_, plan=plan, units=PLANS[plan])) for k_, d_ in out[n0:]]
             if len(part.samples) < 3 and dep and dkind == "float":
                 part.sample({"template": ex, "bare": repr(C.flatten(ref)[0])[:120], "unyt": repr(C.flatten(got)[0])[:120]})
     return out
